@@ -32,6 +32,26 @@ def run(ctx):
         for i in range(0, len(tg), 6):          # one work unit = a language and up to 5 of its locales (load balance)
             reqs.append({"lang": L, "targets": tg[i:i + 6], "days": days, "years": years, "refs": refs, "quick": ctx.quick()})
     res = core.run_cases(ctx, "harness.c05lib", "walk_language", reqs, chunk=1)
+    # ---- load order: the units above load the language first and its regional locales after it.  Regional locales that
+    # add words of their own are also loaded FIRST in a fresh process, then the language, then sibling locales: what one
+    # locale adds must not reach the others.  (Always: overlays with a word the language lists under another key.)
+    fresh_reqs = []
+    if not rep:
+        for L in langs:
+            ov = exported["langs"][L].get("overlays", {})
+            if not ov:
+                continue
+            firsts = [loc for loc, o in sorted(ov.items()) if o["collides"]]
+            others = [loc for loc in sorted(ov) if loc not in firsts]
+            firsts += others if not ctx.quick() else rng.sample(others, min(1, len(others)))
+            allloc = sorted(exported["langs"][L]["locales"])
+            for f in firsts:
+                sib = rng.sample([x for x in allloc if x != f], min(2, len(allloc) - 1))
+                order_ = [f, L] + sib
+                fresh_reqs.append({"lang": L, "targets": order_, "order": order_, "days": days[:2], "years": years[:1], "refs": refs[:2], "quick": False})
+        fres = core.run_fresh(ctx, "harness.c05lib", "walk_language", fresh_reqs)
+        reqs = reqs + fresh_reqs
+        res = res + fres
     records, index = [], []
     nwords = 0
     for L, recs in zip([r["lang"] for r in reqs], res):
@@ -76,7 +96,7 @@ def run(ctx):
         "rule": "case = (language or locale, listed month/weekday name, NORMALIZE, probe); non-trivial = distinct (locale, name, NORMALIZE) inside the domain (single meaning)",
         "exhaustive": not ctx.quick(), "languages": len(langs), "locale_word_pairs": nwords, "outside_domain_probes": sp,
         "states": gen, "transitions": gen, "traces_validated_against_impl": len(records) - sp,
-        "failing_locale_word_pairs": len(failing),
+        "failing_locale_word_pairs": len(failing), "regional_first_fresh_processes": len(fresh_reqs),
         "samples": [{"locale": r["target"], "word": r["word"], "key": r["key"], "probe": u["s"], "observed": u["out"]} for _, r, u in index[:: max(1, len(index) // 6)]][:6],
     }
     import os, json
